@@ -76,6 +76,41 @@ func (br *bodyRun) invoke(st *State, c *ssa.CallCommon, rt types.Type, x ssa.Cal
 		// err.Error(): pure, fresh string
 		return fc.freshTyped(st, rt, "errstr")
 	}
+	// no contract: the union of the inferred frames of the module's implementations
+	if impls := fc.eng.implementations(recvT, c.Method); impls != nil {
+		keys := map[string]string{}
+		all, locks, why := false, false, ""
+		for _, m := range impls {
+			if isForeign(m) {
+				continue
+			}
+			fr := fc.inferFrame(m)
+			if fr.all {
+				all, why = true, fr.why
+				break
+			}
+			for k, s := range fr.keys {
+				keys[k] = s
+			}
+			locks = locks || fr.locks
+		}
+		if !all {
+			fc.note("interface call %s.%s: no contract; result unconstrained, frame = union of the inferred frames of its implementations", typeNameFull(recvT), name)
+			na := fc.smt.declare("alloc", "Int")
+			fc.assume(st, app(">=", na, st.alloc))
+			st.alloc = na
+			var iargs []Val
+			for _, a := range c.Args {
+				iargs = append(iargs, fc.val(a))
+			}
+			br.havocInferred(st, keys, nil, iargs, c.Args)
+			if locks {
+				fc.havocHeld(st)
+			}
+			return fc.freshTyped(st, rt, "inv")
+		}
+		_ = why
+	}
 	if !fc.light {
 		unsup("interface method call %s.%s without a contract at %s", recvT, name, fc.posStr(x.Pos()))
 	}
@@ -172,15 +207,7 @@ func (br *bodyRun) callStatic(st *State, fn *ssa.Function, bindings []Val, argVa
 		na := fc.smt.declare("alloc", "Int")
 		fc.assume(st, app(">=", na, st.alloc))
 		st.alloc = na
-		var ks []string
-		for k := range fr.keys {
-			ks = append(ks, k)
-		}
-		sort.Strings(ks)
-		for _, k := range ks {
-			fc.touched[k] = true
-			fc.havocKey(st, k, fr.keys[k])
-		}
+		br.havocInferred(st, fr.keys, fn, args, argVals)
 		if fr.locks {
 			fc.havocHeld(st)
 		}
@@ -192,6 +219,70 @@ func (br *bodyRun) callStatic(st *State, fn *ssa.Function, bindings []Val, argVa
 	fc.note("call to %s at %s: no contract, heap havoc'd (%s)", full, fc.posStr(x.Pos()), fr.why)
 	fc.havocAll(st)
 	return fc.freshTyped(st, rt, "call")
+}
+
+// havocInferred havocs the keys of an inferred frame. The cells of the calling function's own
+// source variables keep their value when the callee cannot have their address (it is not one
+// of this function's closures and receives no function value and no pointer to a cell).
+func (br *bodyRun) havocInferred(st *State, keys map[string]string, callee *ssa.Function, args []Val, argVals []ssa.Value) {
+	fc := br.fc
+	keepCells := true
+	if callee != nil && callee.Parent() != nil {
+		keepCells = false
+	}
+	for i, a := range args {
+		if _, isF := a.(FuncV); isF {
+			keepCells = false
+		}
+		if p, ok := a.(PtrV); ok && p.Kind == PObj && i < len(argVals) {
+			if _, isStruct := p.Root.Underlying().(*types.Struct); !isStruct {
+				keepCells = false
+			}
+		}
+	}
+	var ks []string
+	for k := range keys {
+		ks = append(ks, k)
+	}
+	sort.Strings(ks)
+	for _, k := range ks {
+		fc.touched[k] = true
+		if keepCells && strings.HasPrefix(k, "cell|") && !fc.isStableKey(k) {
+			old := fc.heapSym(st, k, keys[k])
+			fc.havocKey(st, k, keys[k])
+			h := st.heap[k]
+			changed := false
+			for _, b := range br.fn.Blocks {
+				for _, ins := range b.Instrs {
+					a, ok := ins.(*ssa.Alloc)
+					if !ok || a.Comment == "" {
+						continue
+					}
+					p, ok := fc.vals[a].(PtrV)
+					if !ok || p.Kind != PObj || len(p.Path) != 0 {
+						continue
+					}
+					if _, isStruct := p.Root.Underlying().(*types.Struct); isStruct {
+						continue
+					}
+					if !strings.HasPrefix(k, "cell|"+typeName(p.Root)) {
+						continue
+					}
+					rest := k[len("cell|"+typeName(p.Root)):]
+					if rest != "" && rest[0] != '#' && rest[0] != '.' {
+						continue
+					}
+					h = app("store", h, p.Ref, app("select", old, p.Ref))
+					changed = true
+				}
+			}
+			if changed {
+				st.heap[k] = fc.smt.defineAlways("H_"+k, keys[k], h)
+			}
+			continue
+		}
+		fc.havocKey(st, k, keys[k])
+	}
 }
 
 // callModifies: which heap keys a call inside a loop may write (for loop havoc).
@@ -718,6 +809,11 @@ func (br *bodyRun) userAsserts(b *ssa.BasicBlock, idx int, ins ssa.Instruction, 
 			}
 			k := br.siteOrdinal(ci, name)
 			match = ord == 0 || ord == k
+		case len(fs) == 3 && fs[1] == "closure":
+			// the instruction that creates the closure assigned to the named local variable
+			if mc, ok := ins.(*ssa.MakeClosure); ok {
+				match = closureName(mc.Fn.(*ssa.Function)) == fs[2]
+			}
 		case len(fs) == 2 && strings.HasPrefix(fs[1], "return"):
 			_, match = ins.(*ssa.Return)
 			if match && strings.Contains(fs[1], "#") {
